@@ -372,6 +372,27 @@ def t_level1(task, ctx: Ctx):
                             want = want.attr_map(am)
                         if got != want.rows:
                             ctx.violation("cells", "C02/cells/content-window" + ("/wide" if has_wide(v.g) else ""), {"leaf": name, "window": [tl, tt, c, r], "attr": bool(am)}, f"{got} != {want.rows}")
+    # chains of attribute maps (the same map repeated too: a swap applied twice is the identity), on one wrapper and on nested wrappers
+    for n in (2, 3):
+        for seq in itertools.product(range(len(ATTR_MAPS)), repeat=n):
+            for nested in (False, True):
+                ctx.count("evaluations")
+                hist = ("attr-chain", seq, nested, ("leaf", name))
+                try:
+                    cc = CompositeCanvas(v.canv)
+                    g = v.g
+                    for i in seq:
+                        if nested:
+                            cc = CompositeCanvas(cc)
+                        cc.fill_attr_apply(dict(ATTR_MAPS[i]))
+                        g = g.attr_map(ATTR_MAPS[i])
+                    got = G.grid_of_content(cc.content())
+                except Exception as e:
+                    ctx.violation("no-raise", f"C02/op-raises/attr-chain/{exc_site(e)}", {"expr": hist}, repr(e))
+                    continue
+                if got != g.rows:
+                    rep = "repeated" if any(a == b for a, b in zip(seq, seq[1:])) else "distinct"
+                    ctx.violation("cells", f"C02/cells/attr-chain/{rep}/{'nested' if nested else 'same-wrapper'}", {"expr": hist}, f"maps {[ATTR_MAPS[i] for i in seq]}: {got} != {g.rows}")
     # finalized canvases refuse mutation
     fv = build(("u", ("wrap",), ("leaf", name)))
     fv.canv.finalize(POPW, (cols, rows), False)
@@ -635,7 +656,7 @@ def run(tier, R):
         "evaluations": ev,
         "distinct_nontrivial": len(R.ctx.sets.get("nontrivial", ())),
         "rule": f"{len(leaves)} leaf canvases (text with wide/combining/DEC-charset content, run-length attrs, cursor, pop-up; solid) -> every unary op "
-        "(wrap, pad/trim left/right and top/bottom in [-2,2], trim, trim_end, 3 attribute maps) -> every binary op (combine, join with pad 0/1, overlay "
+        "(wrap, pad/trim left/right and top/bottom in [-2,2], trim, trim_end, 3 attribute maps) and every chain of 2-3 attribute maps (repeats included, on one wrapper and nested) -> every binary op (combine, join with pad 0/1, overlay "
         f"at every offset) over a pool of {len(Bq)} values followed by every unary op -> binary ops of {len(pairs)} leaf-pair composites with "
         f"{len(outer_leaves)} leaves in both orders followed by unary ops; content() windows on leaves; finalize guard; operands re-read; delta for "
         "every same-size pair of composites over shared leaf objects. states = distinct result grids of binary expressions; evaluations = canvases compared",
